@@ -201,17 +201,20 @@ class FnGuards:
                 else:
                     return None
             elif pe[0] == "f":
-                # field type is recorded in JSON projections but dropped by norm_place; re-derive
-                # for tuples/ADTs is not possible here; give up (caller falls back)
-                return self._field_type(pl)
+                if len(pe) > 3 and pe[3] is not None:
+                    ty = self.prog.types[pe[3]]
+                else:
+                    return None
             elif pe[0] == "dc":
                 continue
+            elif pe[0] in ("ix", "cix"):
+                if ty["k"] in ("slice", "array"):
+                    ty = self.prog.types[ty["t"]]
+                else:
+                    return None
             else:
                 return None
         return ty
-
-    def _field_type(self, pl):
-        return None
 
     # -- queries
     def accept_defs(self, refusal_kinds):
@@ -226,11 +229,29 @@ class FnGuards:
                 out.append(e)
         return out
 
-    def dominates_accepts(self, edge, refusal_kinds=("err",)):
-        """does the switch block of `edge` dominate every accepting return definition?"""
+    def dominates_accepts(self, edge, refusal_kinds=("err",), bypass=None):
+        """does the switch block of `edge` dominate every accepting return definition?
+        bypass: optional predicate on Edge; edges for which it holds are *allowed* ways around the
+        guard (e.g. the `joint_rand_len() == 0` side of an enclosing if) and are removed first."""
         b = self.body
         acc = self.accept_defs(refusal_kinds)
-        return all(b.dominates(edge.block, rd.block) for rd in acc) and bool(acc)
+        if not acc:
+            return False
+        if bypass is None:
+            return all(b.dominates(edge.block, rd.block) for rd in acc)
+        removed = set((e.block, e.target) for e in self.edges if bypass(e))
+        seen = {0}
+        st = [0]
+        while st:
+            n = st.pop()
+            if n == edge.block:
+                continue
+            for s in b.succ[n]:
+                if (n, s) in removed or s in seen:
+                    continue
+                seen.add(s)
+                st.append(s)
+        return not any(rd.block in seen and rd.block != edge.block for rd in acc)
 
     def loop_of(self, blk):
         """innermost natural loop containing blk: (header, blocks) or None"""
